@@ -1,9 +1,132 @@
-//! C18 sessions (seeded driver). Fill in.
+//! C18 sessions: a year-month anywhere in -271821-04 .. +275760-09 is obtained by a random route (string with or
+//! without day / time, from a date, from a field record, constructor with or without an explicit reference day),
+//! compared with the same month obtained by another route, then moved by random year/month durations and measured
+//! against other year-months with random option sets; month-days by their routes (Feb 29, impossible days).
+use super::c17::any_year;
 use super::Tracer;
 use crate::gen::*;
 use crate::rng::Rng;
-use serde_json::json;
+use serde_json::{json, Value};
+
+fn year_str(y: i64) -> String { if (0..=9999).contains(&y) { format!("{:04}", y) } else { format!("{}{:06}", if y < 0 { '-' } else { '+' }, y.abs()) } }
+fn dim(y: i64, m: i64) -> i64 { match m { 2 => if (y % 4 == 0 && y % 100 != 0) || y % 400 == 0 { 29 } else { 28 }, 4 | 6 | 9 | 11 => 30, _ => 31 } }
+
+/// a year-month index (months since year 0) anywhere in the range, biased to both limits and ordinary years
+fn any_ym(r: &mut Rng) -> (i64, i64) {
+    let lo = -271_821 * 12 + 3; let hi = 275_760 * 12 + 8;
+    let idx = match r.range(0, 9) {
+        0 | 1 => lo + r.range(0, 30),
+        2 | 3 => hi - r.range(0, 30),
+        4..=6 => r.range(1900 * 12, 2100 * 12),
+        7 => r.range(-30, 30),
+        _ => r.range(lo, hi),
+    };
+    (idx.div_euclid(12), idx.rem_euclid(12) + 1)
+}
+fn ovf_s(r: &mut Rng) -> &'static str { if r.chance(1, 2) { "constrain" } else { "reject" } }
+
+/// a route to the year-month (y, m); `wild` allows invalid ingredients (impossible days, months 0 / 13, years beyond the limits)
+fn ym_route(r: &mut Rng, y: i64, m: i64, wild: bool) -> Value {
+    let day = |r: &mut Rng| if wild && r.chance(1, 4) { *r.pick(&[0i64, 29, 30, 31, 32]) } else { r.range(1, dim(y, m)) };
+    // a plain date of a year far outside the limits cannot be the starting point of a route; strings have at most six year digits
+    let far = y.abs() > 300_000 || !(0..=99).contains(&m);
+    match if far { r.range(5, 8) } else { r.range(0, 9) } {
+        0 | 1 | 2 => {
+            let d = if r.chance(1, 3) { 0 } else { let d = day(r); if d == 0 || d == 32 { 31 } else { d } };
+            let t = if d == 0 { "" } else { *r.pick(&["", "", "T10:00", "T23:59:59.999999999", "T00:00:00", " 12:30:45.5"]) };
+            let s = format!("{}-{:02}{}{}", year_str(y), m, if d == 0 { String::new() } else { format!("-{:02}", d) }, t);
+            json!({"k": "str", "y": y, "m": m, "d": d, "t": t, "s": s})
+        }
+        3 | 4 => json!({"k": "date", "d": {"y": y, "m": m, "d": day(r).clamp(1, 31)}}),
+        5 | 6 => {
+            let mut p = json!({"year": y});
+            match r.range(0, 2) { 0 => { p["month"] = json!(m); } 1 => { p["monthCode"] = json!(format!("M{:02}", m)); } _ => { p["month"] = json!(m); p["monthCode"] = json!(format!("M{:02}", m)); } }
+            if r.chance(1, 2) { p["day"] = json!(if wild && r.chance(1, 3) { *r.pick(&[0i64, 31, 32, 255]) } else { r.range(1, dim(y, m)) }); }
+            if r.chance(1, 4) { json!({"k": "partial", "p": p}) } else { json!({"k": "partial", "p": p, "ovf": ovf_s(r)}) }
+        }
+        7 | 8 => {
+            let mut v = json!({"k": "new", "y": y, "m": m, "ovf": ovf_s(r)});
+            if r.chance(1, 2) { v["rd"] = json!(if wild && r.chance(1, 3) { *r.pick(&[0i64, 31, 32, 255]) } else if r.chance(1, 3) { 1 } else { r.range(1, dim(y, m)) }); }
+            v
+        }
+        _ if (1..=12).contains(&m) => json!({"k": "with", "recv": {"y": 2000 + r.range(0, 30), "m": m}, "p": {"year": y}, "ovf": ovf_s(r)}),
+        _ => json!({"k": "new", "y": y, "m": m, "ovf": ovf_s(r)}),
+    }
+}
+fn md_route(r: &mut Rng, m: i64, d: i64, extreme: bool) -> Value {
+    match if (0..=99).contains(&m) && (0..=99).contains(&d) { r.range(0, 5) } else { r.range(3, 5) } {
+        0 | 1 => {
+            let f = *r.pick(&["MM-DD", "--MM-DD", "MMDD", "--MMDD", "YYYY-MM-DD"]);
+            let y = *r.pick(&[1972i64, 2021, 2024, 2000, 1900]);
+            let s = match f { "MM-DD" => format!("{:02}-{:02}", m, d), "--MM-DD" => format!("--{:02}-{:02}", m, d), "MMDD" => format!("{:02}{:02}", m, d),
+                              "--MMDD" => format!("--{:02}{:02}", m, d), _ => format!("{}-{:02}-{:02}", year_str(y), m, d) };
+            if f == "YYYY-MM-DD" { json!({"k": "str", "f": f, "y": y, "m": m, "d": d, "s": s}) } else { json!({"k": "str", "f": f, "m": m, "d": d, "s": s}) }
+        }
+        2 => json!({"k": "date", "d": {"y": *r.pick(&[2020i64, 2024, 2021, 1900, 2000, -4, 275760, -271821]), "m": m, "d": d}}),
+        _ => {
+            let mut v = json!({"k": "new", "m": m, "d": d, "ovf": ovf_s(r)});
+            if r.chance(1, 3) { v["ry"] = json!(if extreme && r.chance(1, 4) { any_year(r) } else { *r.pick(&[1972i64, 2021, 2024, 1900, 2000]) }); }
+            v
+        }
+    }
+}
+fn mag(r: &mut Rng, small: i64, big_: i64) -> i128 {
+    (match r.range(0, 9) { 0..=2 => 0, 3..=7 => r.range(0, small), _ => r.range(0, big_) }) as i128
+}
 
 pub fn drive(t: &mut Tracer, r: &mut Rng, n: usize) {
-    let _ = (t, r, n);
+    let settings = [json!({}), json!({"largest": "year"}), json!({"largest": "month"}), json!({"largest": "auto"}), json!({"smallest": "month"}),
+        json!({"largest": "year", "smallest": "month"}), json!({"largest": "month", "smallest": "month"}),
+        json!({"largest": "week"}), json!({"largest": "day"}), json!({"smallest": "week"}), json!({"smallest": "day"}), json!({"largest": "month", "smallest": "day"})];
+    while t.n < n {
+        if r.chance(1, 5) {
+            // ---- month-days
+            for _ in 0..r.range(2, 6) {
+                let m = if r.chance(1, 10) { *r.pick(&[0i64, 13, 255]) } else { r.range(1, 12) };
+                let d = match r.range(0, 9) { 0 => *r.pick(&[0i64, 32, 255]), 1 | 2 => *r.pick(&[28i64, 29, 30, 31]), _ => r.range(1, 28) };
+                let (m, d) = if r.chance(1, 6) { (2, 29) } else { (m, d) };
+                if r.chance(1, 2) { let a = md_route(r, m, d, true); t.call("PlainMonthDay.route", json!({"route": a})); }
+                else { let a = md_route(r, m, d, false); let b = md_route(r, m, d, false); t.call("PlainMonthDay.cmp", json!({"a": a, "b": b})); }
+            }
+            t.reset();
+            continue;
+        }
+        // ---- a year-month by some route
+        let (y, m) = if r.chance(1, 12) { (any_year(r), *r.pick(&[0i64, 1, 6, 12, 13, 255])) } else { any_ym(r) };
+        let wild = r.chance(1, 6);
+        let route = ym_route(r, y, m, wild);
+        if r.chance(1, 3) && (1..=12).contains(&m) && y.abs() <= 300_000 {
+            let other = ym_route(r, y, m, false);
+            t.call("PlainYearMonth.cmp", json!({"a": route.clone(), "b": other}));
+        }
+        let out = t.call("PlainYearMonth.route", json!({"route": route}));
+        if out["kind"] != "ok" { t.reset(); continue; }
+        let mut cur = json!({"y": out["val"]["y"], "m": out["val"]["m"], "rd": out["val"]["rd"]});
+        for _ in 0..r.range(3, 12) {
+            let (cy, cm) = (cur["y"].as_i64().unwrap(), cur["m"].as_i64().unwrap());
+            if r.chance(1, 2) {
+                let sg: i128 = if r.chance(1, 2) { 1 } else { -1 };
+                let (yy, mo) = match r.range(0, 9) {
+                    0 => (mag(r, 600_000, 4_294_967_295), mag(r, 7_000_000, 4_294_967_295)),
+                    1 | 2 => (mag(r, 550_000, 550_000), mag(r, 6_600_000, 6_600_000)),
+                    _ => (mag(r, 5, 300), mag(r, 40, 4000)),
+                };
+                let dur = if r.chance(1, 60) { date_dur(sg * yy.min(3), sg * mo.min(30), sg * r.range(0, 2) as i128, sg * r.range(1, 40) as i128) } else { date_dur(sg * yy, sg * mo, 0, 0) };
+                let out = t.call(if r.chance(1, 2) { "PlainYearMonth.add" } else { "PlainYearMonth.subtract" }, json!({"recv": cur, "dur": dur, "ovf": ovf_s(r)}));
+                if out["kind"] == "ok" { cur = out["val"].clone(); }
+            } else {
+                let (oy, om) = match r.range(0, 5) {
+                    0 | 1 => { let i = cy * 12 + cm - 1 + r.range(-40, 40); (i.div_euclid(12), i.rem_euclid(12) + 1) }
+                    2 => (cy, cm),
+                    _ => any_ym(r),
+                };
+                let mut other = json!({"y": oy, "m": om});
+                if r.chance(1, 8) { other["rd"] = json!(r.range(1, dim(oy, om))); }
+                let in_limits = |y: i64, m: i64| (y > -271_821 || (y == -271_821 && m >= 4)) && (y < 275_760 || (y == 275_760 && m <= 9));
+                if !in_limits(oy, om) { continue; }
+                t.call(if r.chance(1, 2) { "PlainYearMonth.until" } else { "PlainYearMonth.since" }, json!({"recv": cur, "other": other, "st": r.pick(&settings).clone()}));
+            }
+        }
+        t.reset();
+    }
 }
